@@ -118,8 +118,10 @@ pub fn stage(id: &str, ctx: &Ctx) -> ScnResult {
     }
     let base = (ctx.seed % 4096) * 64;
     let batches: Vec<(Vec<String>, u64)> = match (id, ctx.tier) {
-        ("C13", Tier::Quick) => vec![(vec!["c13".into()], 12)],
-        ("C13", Tier::Thorough) => vec![(vec!["c13".into()], 192)],
+        ("C13", Tier::Quick) => (0..2)
+            .map(|v| (vec!["c13".to_string(), ((ctx.seed as usize + v * 7) % 30).to_string()], 6))
+            .collect(),
+        ("C13", Tier::Thorough) => (0..30).map(|v| (vec!["c13".to_string(), v.to_string()], 8)).collect(),
         ("C15", Tier::Quick) => (0..4)
             .map(|v| (vec!["c15".to_string(), ((ctx.seed as usize + v * 5) % 23).to_string()], 4))
             .collect(),
